@@ -44,14 +44,14 @@ pub fn format_type_description(input: &str) -> String {
         false
     }
 
-    fn add_indentation(output: &mut String, indent_level: i32) {
+    fn add_indentation(output: &mut String, indent_level: isize) {
         for _ in 0..indent_level {
             output.push_str("    ");
         }
     }
 
     let mut output = String::new();
-    let mut indent_level: i32 = 0;
+    let mut indent_level: isize = 0;
 
     let mut tuple_level: SmallVec<[Scope; 8]> = SmallVec::new();
     let mut angle_level: SmallVec<[Scope; 8]> = SmallVec::new();
